@@ -215,6 +215,16 @@ CLAIMS = {
         "read_varint (.1 <= data.len()) and field_end (pos <= end <= data.len()); the REVIEWED table in rules/C17.py.",
         "static analysis: MIR panic-site enumeration with guard discharge over comparison edges; HIR path enumeration (lock-step pushes); HIR shape tables",
         "DESIGN.md §3 C17"),
+    "C04": (
+        "Decides that the pruning inputs over-approximate where that is a matter of code shape: R1 no wall-clock value may reach the TimeRange used for selection "
+        "(KNOWN FINDING: last-hour default), R2 the time-bound extractor may hand its accumulators to itself only under AND (KNOWN FINDING: And | Or), R3 bounds are "
+        "widened (lower by min, upper by max), never overwritten or narrowed (KNOWN FINDING: Eq assigns outright), R4 direct and reversed operator tables set the right "
+        "bound and mirror each other, R5 the index path plans the caller's SQL unchanged through the read-only planner and returns that plan's rows, only get_/record_ "
+        "calls on the controller; R6 includes the chunk-selection rules of C07 (R1-R5) and C12 (R1-R4) and R7 the per-query binding rules C10.R2/R3, evaluated under "
+        "this property. Equality with a full scan, DataFusion's SQL semantics and literal coercions are not decided.",
+        "Trusted: rustc / driver / engine; DataFusion plans and executes the SQL it is given; everything trusted by C07, C10 and C12.",
+        "static analysis: typed-HIR operator/accumulator tables, MIR value provenance, inclusion of the C07 / C12 / C10 rule sets",
+        "DESIGN.md §3 C04"),
 }
 
 NOT_YET = "rule set under construction in this round; see DESIGN.md §3 for the planned static rules"
